@@ -70,10 +70,8 @@ the standard recommends raising 'overflow', Python should raise an
 OverflowError.  In all other circumstances a value should be
 returned.
 */
-var (
-	EDOM   = py.ExceptionNewf(py.ValueError, "math domain error")
-	ERANGE = py.ExceptionNewf(py.OverflowError, "math range error")
-)
+func EDOM() *py.Exception   { return py.ExceptionNewf(py.ValueError, "math domain error") }
+func ERANGE() *py.Exception { return py.ExceptionNewf(py.OverflowError, "math range error") }
 
 // isFinite is true if x is not Nan or +/-Inf
 func isFinite(x float64) bool {
@@ -94,11 +92,11 @@ platforms.
 	raised if can_overflow is 1, or raises ValueError if can_overflow
 	is 0.
 
-- if the result is finite and errno == EDOM then ValueError is
+- if the result is finite and errno == EDOM() then ValueError is
 
 	raised
 
-- if the result is finite and nonzero and errno == ERANGE then
+- if the result is finite and nonzero and errno == ERANGE() then
 
 	OverflowError is raised
 
@@ -126,13 +124,13 @@ func math_1_to_whatever(arg py.Object, fn func(float64) float64, can_overflow bo
 // checkResult returns EDOM or ERANGE accordingly - see math_1_to_whatever for rules
 func checkResult(x, r float64, can_overflow bool) (float64, error) {
 	if math.IsNaN(r) && !math.IsNaN(x) {
-		return 0, EDOM /* invalid arg */
+		return 0, EDOM() /* invalid arg */
 	}
 	if math.IsInf(r, 0) && isFinite(x) {
 		if can_overflow {
-			return 0, ERANGE /* overflow */
+			return 0, ERANGE() /* overflow */
 		} else {
-			return 0, EDOM /* singularity */
+			return 0, EDOM() /* singularity */
 		}
 	}
 	return r, nil
@@ -141,8 +139,8 @@ func checkResult(x, r float64, can_overflow bool) (float64, error) {
 /*
 variant of math_1, to be used when the function being wrapped is known to
 
-	set errno properly (that is, errno = EDOM for invalid or divide-by-zero,
-	errno = ERANGE for overflow).
+	set errno properly (that is, errno = EDOM() for invalid or divide-by-zero,
+	errno = ERANGE() for overflow).
 */
 func math_1a(arg py.Object, fn func(float64) float64) (py.Object, error) {
 	x, err := py.FloatAsFloat64(arg)
@@ -166,11 +164,11 @@ platforms.
 
 	raised.
 
-- if the result is finite and errno == EDOM then ValueError is
+- if the result is finite and errno == EDOM() then ValueError is
 
 	raised
 
-- if the result is finite and nonzero and errno == ERANGE then
+- if the result is finite and nonzero and errno == ERANGE() then
 
 	OverflowError is raised
 
@@ -218,11 +216,11 @@ func math_2(args py.Tuple, fn func(float64, float64) float64, fnname string) (py
 	r = fn(x, y)
 	if math.IsNaN(r) {
 		if !math.IsNaN(x) && !math.IsNaN(y) {
-			return nil, EDOM
+			return nil, EDOM()
 		}
 	} else if math.IsInf(r, 0) {
 		if isFinite(x) && isFinite(y) {
-			return nil, ERANGE
+			return nil, ERANGE()
 		}
 	}
 	return py.Float(r), nil
@@ -349,7 +347,7 @@ func math_gamma(self py.Object, arg py.Object) (py.Object, error) {
 	}
 	// If x is -ve integer...
 	if x <= 0 && x == math.Floor(x) {
-		return nil, EDOM
+		return nil, EDOM()
 	}
 	r := math.Gamma(x)
 	res, err := checkResult(x, r, true)
@@ -368,7 +366,7 @@ func math_lgamma(self py.Object, arg py.Object) (py.Object, error) {
 	}
 	// If x is -ve integer...
 	if x <= 0 && x == math.Floor(x) {
-		return nil, EDOM
+		return nil, EDOM()
 	}
 	r, _ := math.Lgamma(x)
 	res, err := checkResult(x, r, true)
@@ -904,14 +902,14 @@ func math_ldexp(self py.Object, args py.Tuple) (py.Object, error) {
 	} else if exp > math.MaxInt16 {
 		/* overflow */
 		// r = math.Copysign(math.Inf(1), x)
-		return nil, ERANGE
+		return nil, ERANGE()
 	} else if exp < math.MinInt16 {
 		/* underflow to +-0 */
 		r = math.Copysign(0., x)
 	} else {
 		r = math.Ldexp(x, exp)
 		if math.IsInf(r, 0) {
-			return nil, ERANGE
+			return nil, ERANGE()
 		}
 	}
 	return py.Float(r), nil
@@ -965,7 +963,7 @@ func loghelper(arg py.Object, fn func(float64) float64, fnname string) (py.Objec
 
 		/* Negative or zero inputs give a ValueError. */
 		if (*big.Int)(xBig).Sign() <= 0 {
-			return nil, EDOM
+			return nil, EDOM()
 		}
 
 		xf, err := xBig.Float()
@@ -1049,7 +1047,7 @@ func math_fmod(self py.Object, args py.Tuple) (py.Object, error) {
 	r = math.Mod(x, y)
 	if math.IsNaN(r) {
 		if !math.IsNaN(x) && !math.IsNaN(y) {
-			return nil, EDOM
+			return nil, EDOM()
 		}
 	}
 	return py.Float(r), nil
@@ -1084,11 +1082,11 @@ func math_hypot(self py.Object, args py.Tuple) (py.Object, error) {
 	r = math.Hypot(x, y)
 	if math.IsNaN(r) {
 		if !math.IsNaN(x) && !math.IsNaN(y) {
-			return nil, EDOM
+			return nil, EDOM()
 		}
 	} else if math.IsInf(r, 0) {
 		if isFinite(x) && isFinite(y) {
-			return nil, ERANGE
+			return nil, ERANGE()
 		}
 	}
 	return py.Float(r), nil
@@ -1162,7 +1160,7 @@ func math_pow(self py.Object, args py.Tuple) (py.Object, error) {
 			} else if y < 0. && math.Abs(x) < 1.0 {
 				r = -y       /* result is +inf */
 				if x == 0. { /* 0**-inf: divide-by-zero */
-					return nil, EDOM
+					return nil, EDOM()
 				}
 			} else {
 				r = 0.
@@ -1171,7 +1169,7 @@ func math_pow(self py.Object, args py.Tuple) (py.Object, error) {
 	} else {
 		// Go returns Inf rather than NaN for -ve, so pick this off early
 		if x == 0 && y < 0 {
-			return nil, EDOM
+			return nil, EDOM()
 		}
 		/* let libm handle finite**finite */
 		r = math.Pow(x, y)
@@ -1179,7 +1177,7 @@ func math_pow(self py.Object, args py.Tuple) (py.Object, error) {
 		   non-integer); in this case we want to raise ValueError. */
 		if !isFinite(r) {
 			if math.IsNaN(r) {
-				return nil, EDOM
+				return nil, EDOM()
 			} else if math.IsInf(r, 0) {
 				/*
 				   an infinite result here arises either from:
@@ -1187,7 +1185,7 @@ func math_pow(self py.Object, args py.Tuple) (py.Object, error) {
 				   (B) overflow of x**y with x and y finite
 				*/
 				if x != 0. {
-					return nil, ERANGE
+					return nil, ERANGE()
 				}
 			}
 		}
